@@ -569,6 +569,8 @@ def corpus_inputs(chk):
     thorough = chk.tier == "thorough"
     per_font = 40 if thorough else 1
     fonts = [p for p in common.corpus_fonts((".ttf", ".otf")) if os.path.getsize(p) < 3_000_000]
+    if not thorough:   # quick: a seeded half of the fonts, one glyph each
+        fonts = sorted(chk.rng.sample(fonts, len(fonts) // 2))
     jobs = [(p, per_font, chk.seed, 220 if thorough else 60) for p in fonts]
     res = common.pmap(_font_streams, jobs)
     out = []
@@ -713,8 +715,8 @@ def run(chk):
     if thorough:
         chosen = list(range(n_exh))
     else:
-        chosen = sorted(chk.rng.sample(range(n_exh), min(n_exh, 4500)))
-        deep = sorted(chk.rng.sample(deep, min(len(deep), 2500)), key=lambda o: json.dumps(o))
+        chosen = sorted(chk.rng.sample(range(n_exh), min(n_exh, 3200)))
+        deep = sorted(chk.rng.sample(deep, min(len(deep), 1800)), key=lambda o: json.dumps(o))
     level = 2 if thorough else 0
     items = [(12, outlines[i], {"src": "exhaustive", "n": i}, i + chk.seed, level) for i in chosen]
     items += [(12, o, {"src": "simulation", "n": i}, i + chk.seed, level) for i, o in enumerate(deep)]
